@@ -26,6 +26,7 @@ const (
 	SScan // reference to a bufio.Scanner ghost record
 	SNil
 	SLL // [][]string of a FindAll*: T = first element (SL), Rec = count term
+	SOL // slice of unmodelled elements (structs ...): T = length term only
 	SOpaque
 )
 
@@ -186,6 +187,9 @@ type FnCtx struct {
 	declSet    map[string]bool
 	useCallee  string
 	inlineDepth int
+	headEnv    map[string]Val
+	headFresh  map[string]bool
+	loopEntry  map[int]*State
 	declSetN   int
 }
 
@@ -333,6 +337,12 @@ func (fc *FnCtx) freshVal(st *State, hint string, s Sort, gt types.Type) Val {
 		return Val{S: SBuf, GT: gt, Rec: fc.freshName("buf_" + hint)}
 	case SScan:
 		return Val{S: SScan, GT: gt, Rec: fc.freshName("scan_" + hint)}
+	case SOL:
+		n := fc.declare(hint+"_len", SInt)
+		if st != nil {
+			st.assume = append(st.assume, "(>= "+n+" 0)")
+		}
+		return Val{S: SOL, GT: gt, T: n}
 	}
 	return Val{S: s, GT: gt, T: "0"}
 }
@@ -358,6 +368,10 @@ func (fc *FnCtx) initialVal(key string, s Sort, gt types.Type) Val {
 		fc.initAssume = append(fc.initAssume, nonTrue(wfOf(n, s, gt))...)
 	case SRec, SMap, SBuf, SScan:
 		v = Val{S: s, GT: gt, Rec: "init_" + sanitize(key)}
+	case SOL:
+		n := fc.declare("in_"+key+"_len", SInt)
+		fc.initAssume = append(fc.initAssume, "(>= "+n+" 0)")
+		v = Val{S: SOL, GT: gt, T: n}
 	default:
 		v = Val{S: s, GT: gt, T: "0"}
 	}
@@ -482,6 +496,8 @@ func sortOf(t types.Type) Sort {
 			return SSL
 		case SSL:
 			return SLL
+		case SRec:
+			return SOL
 		}
 		return SOpaque
 	case *types.Pointer:
